@@ -149,7 +149,9 @@ fn main_check(ctx: &Ctx) -> Outcome {
 
     // StripStr over characters, to fixpoint
     let chars = char_alphabet();
-    let sys_str = StripStrSys { tokens: chars.clone() };
+    // the text API has no 256-symbol fixpoint of its own: give its BFS every ASCII character
+    let chars_full: Vec<String> = (0u8..0x80).map(|b| (b as char).to_string()).chain(['é', '世', '😀', '\u{9c}', '\u{80}', '\u{85}', '\u{a0}', '\u{2705}', '\u{71c}'].iter().map(|c| c.to_string())).collect();
+    let sys_str = StripStrSys { tokens: chars_full.clone() };
     let (states_str, rep) = bfs::reachable_states(&sys_str, &Limits::depth(64));
     out.add_bfs(&rep);
     out.findings.extend(bfs_findings(&rep, clause_of));
@@ -222,7 +224,11 @@ fn main_check(ctx: &Ctx) -> Outcome {
 
     // (3) text APIs: chunks of <= n chars from every reachable StripStr state; one-shot strip_str
     let n_str = if quick { 3 } else { 4 };
-    let strs: Vec<String> = strings_upto(chars.len(), n_str).map(|c| c.iter().map(|&i| chars[i].as_str()).collect::<String>()).collect();
+    let mut strs: Vec<String> = strings_upto(chars.len(), n_str).map(|c| c.iter().map(|&i| chars[i].as_str()).collect::<String>()).collect();
+    // every string of <= 2 characters over the full ASCII range (+ the multi-byte characters), too
+    strs.extend(strings_upto(chars_full.len(), 2).map(|c| c.iter().map(|&i| chars_full[i].as_str()).collect::<String>()));
+    strs.sort();
+    strs.dedup();
     strs.par_iter().for_each(|s| {
         for (si, st) in states_str.iter().enumerate() {
             if s.is_empty() {
@@ -349,7 +355,7 @@ fn replay(v: &serde_json::Value) -> Result<(), String> {
             oneshot_str(std::str::from_utf8(&b).unwrap()).map_err(|(s, m)| format!("{s}: {m}"))
         }
         "str-chunk-from-state" => {
-            let sys = StripStrSys { tokens: char_alphabet() };
+            let sys = StripStrSys { tokens: (0u8..0x80).map(|b| (b as char).to_string()).chain(['é', '世', '😀', '\u{9c}', '\u{80}', '\u{85}', '\u{a0}', '\u{2705}', '\u{71c}'].iter().map(|c| c.to_string())).collect() };
             let (states, _) = bfs::reachable_states(&sys, &Limits::depth(64));
             let (mut imp, mut model) = states[v["start"].as_u64().unwrap() as usize].clone();
             let b = unhex(v["chunk"].as_str().unwrap());
